@@ -93,6 +93,8 @@ def run_impl(case, use_parser=False):
                     do(op)
             finally:
                 depth[0] -= 1
+            # what a listener returns is nobody's business: False, 0, '' ... must not stop or alter the delivery
+            return [None, False, False, 0, True, '', 'stop', []][f % 8]
         if f % 2 == 0:
             return lambda: cb
         # odd callbacks are bound methods: equal, but a fresh object on every access (the emitter compares with ==/!=)
